@@ -91,10 +91,25 @@ def fresh_exception_class():
   return type('DynamicError', (base,), {'__module__': __name__, 'generation': _dyn_count[0]})
 
 
+_hier = {'n': 0, 'base': None}
+
+
+def hierarchy_exception(u):
+  """Alternates: a fresh user base class fails, then - next time - a subclass of it that has
+  never failed before (whatever is remembered per exception class must not be inherited)."""
+  _hier['n'] += 1
+  if _hier['n'] % 2 == 1 or _hier['base'] is None:
+    _hier['base'] = type(f'HierBase{_hier["n"]}', (Exception,), {'__module__': __name__})
+    return _hier['base'](f'hier base {u}')
+  sub = type(f'HierSub{_hier["n"]}', (_hier['base'],), {'__module__': __name__})
+  return sub(f'hier sub {u}')
+
+
 def raiser(shape):
   """Returns (category, function raising a fresh instance with original message text)."""
   table = {
       'plain': lambda u: Plain(f'plain failure {u}'),
+      'subclass-after-base-class-failed': hierarchy_exception,
       'dynamic-class-same-qualname': lambda u: fresh_exception_class()(f'dyn {u}'),
       'value-error': lambda u: ValueError(f'bad value {u}'),
       'multi-arg': lambda u: Plain('first', u, 'third'),
@@ -124,7 +139,7 @@ def raiser(shape):
   return table[shape]
 
 
-SHAPES = ['plain', 'dynamic-class-same-qualname', 'value-error', 'multi-arg', 'no-arg', 'custom-init', 'kwonly-init',
+SHAPES = ['plain', 'subclass-after-base-class-failed', 'dynamic-class-same-qualname', 'value-error', 'multi-arg', 'no-arg', 'custom-init', 'kwonly-init',
           'str-override', 'slots', 'custom-new-incompatible', 'custom-new-compatible',
           'metaclass', 'unsubclassable', 'multi-base', 'key-error', 'os-error',
           'unicode-error', 'exception-group', 'stop-iteration', 'stop-async-iteration',
